@@ -11,7 +11,8 @@ RULE = ("bit patterns {random, PRBS7/9/11 segments, runs of 1..32 equal bits, al
         "BER_analizer functions with k injected flips. Non-trivial: both symbols present; distinct by (pattern class, sps, shape, n_pol, element list, parameter bins).")
 ASSUMPTIONS = ["noise switched off: CW carrier without linewidth/RIN, PD include_noise='ase-only' with i_dark = 0 and no optical noise component",
                "manual decision: SAMPLER at k = sps//2 and numpy comparison of signal+noise with (max+min)/2 of the sampled values",
-               "Gaussian shaping uses the DAC default pulse width T = sps and m = 1"]
+               "Gaussian shaping: the DAC defaults (T = sps, m = 1) or, in half of the Gaussian cases, a super-Gaussian order m in 1..4 and an explicit width T in [ceil(sps/2), sps] (pulses that stay inside their slot)",
+               "two-polarisation carriers: the same field in both axes, or polarised along the modulated axis only, or with unequal power in the two axes"]
 MIN_CHECKS = {"link.bits": 200, "ook.dsp": 20, "ppm.dsp": 30, "ber.counter": 60}
 SHARDS = {"quick": 4}
 
